@@ -66,7 +66,12 @@ func genVacancyPlanCause(t *rapid.T, forced string) *Plan {
 				tl = append(tl, a)
 			}
 		}
-		val := rapid.SampledFrom([]string{"{}", "null", "{\"token\":\"x\",\"priority\":5}", "{\"id\":\"\",\"token\":\"t\"}", "{\"id\":\"\"}", "not json", "", "[1,2]", "{\"id\":7,\"token\":true}"}).Draw(t, "foreign_value")
+		val := rapid.SampledFrom([]string{"{}", "null", "{\"token\":\"x\",\"priority\":5}", "{\"id\":\"\",\"token\":\"t\"}", "{\"id\":\"\"}", "not json", "", "", "[1,2]", "{\"id\":7,\"token\":true}"}).Draw(t, "foreign_value")
+		if rapid.IntRange(0, 2).Draw(t, "foreign_stays") == 0 {
+			// the foreign record stays for a good while: whatever the candidates do about it in the meantime
+			// must not grow with the time it stays
+			tv += odd(time.Duration(rapid.Int64Range(int64(6*time.Second), int64(12*time.Second)).Draw(t, "foreign_for")))
+		}
 		p.Timeline = append(tl, Action{At: 0, Kind: ActExtPut, Inst: -1, Key: "g", Value: []byte(val), Desc: "foreign: " + val},
 			Action{At: tv, Kind: ActExtDelete, Inst: -1, Key: "g"})
 		for i := 1; i < len(p.Instances); i++ {
